@@ -38,3 +38,29 @@ Fixpoint vwf (v : value) : bool :=
   | VDict d => nodup_keys (map fst d) && forallb (fun x => x) (map (fun kv => vwf (snd kv)) d)
   | _ => true
   end.
+
+(* "w carries the substituted data v" (C04): scalars equal - an int/bool position up to
+   Python's True/False ~ 1/0, a float position within the documented tolerance of the pinned
+   value (math.isclose, or equality after rounding to the declared precision; when the schema
+   already had a declared value e, v and w are both within that tolerance of e) -, lists
+   element-wise and of the same length, dicts on every key given. *)
+Require Import D42.Validate.
+
+Definition fpin (x y : float) : Prop :=
+  (exists pr, float_value_ok y x pr = true) \/
+  (exists e pr, float_value_ok x e pr = true /\ float_value_ok y e pr = true).
+
+Definition exact_kind (v : value) : bool :=
+  match v with
+  | VStr _ | VBytes _ | VUuid _ | VDatetime _ _ | VDate _ => true
+  | _ => false end.
+
+Inductive pins : value -> value -> Prop :=
+| pins_none : pins VNone VNone
+| pins_int v w z : as_int v = Some z -> as_int w = Some z -> pins v w
+| pins_float x y : fpin x y -> pins (VFloat x) (VFloat y)
+| pins_same v : exact_kind v = true -> pins v v
+| pins_list l l' : Forall2 pins l l' -> pins (VList l) (VList l')
+| pins_dict d d' :
+    (forall k x, In (k, x) d -> exists y, assoc k d' = Some y /\ pins x y) ->
+    pins (VDict d) (VDict d').
